@@ -71,6 +71,7 @@ func (s *Service) wsHandler(w http.ResponseWriter, r *http.Request) {
 	}
 
 	// Upgrade to gorilla websocket
+	verifPoint("ws.upgrade")
 	ws, err := s.upgrader.Upgrade(w, r, h)
 	if err != nil {
 		conn.Dispose()
